@@ -332,6 +332,20 @@ class World:
             self.drop_dying(pre, post, keep=int(a["s"]))
             ws.remove_entity(e)
             del e
+        elif act == "RemoveBlocked":
+            e = self.ent(a["s"])
+            self.drop_dying(pre, post)
+            try:
+                ws.remove_entity(e)
+            finally:
+                del e
+        elif act == "OpenAgain":
+            import warnings
+            with warnings.catch_warnings():
+                warnings.simplefilter("ignore")
+                same = ws.open() if self.variant % 2 else ws.open(mode=a["m"])
+            if same is not ws:
+                raise Divergence("open-again-returns-other", "open() on an open workspace did not return the workspace", "C11")
         elif act == "RemoveViaParent":
             e = self.ent(a["s"])
             e.parent.remove_children([e])
